@@ -59,11 +59,14 @@ def library_value(expansion, min_order, vars_):
     return tot
 
 
-def check(expansion_fn, half, orders=range(0, 9), min_orders=(1, 2, 3), timeout_ms=20000, seed=0):
-    """returns list of result dicts (status equal / differ / unknown) per (order, min_order)"""
+def check(expansion_fn, half, thorough=False, timeout_ms=20000, seed=0):
+    """returns list of result dicts (status equal / differ / unknown) per (order, min_order).
+    Bounds: the library enumerates (order+1)^length candidate tuples, so the highest order
+    per min_order is limited (quick: 6 / 8 / 9, thorough: 8 / 11 / 12 for min_order 1 / 2 / 3)."""
     out = []
-    for mo in min_orders:
-        for n in orders:
+    caps = {1: 8, 2: 11, 3: 12} if thorough else {1: 6, 2: 8, 3: 9}
+    for mo, cap in caps.items():
+        for n in range(0, cap + 1):
             vars_ = Vars()
             ref = reference(n, mo, half, vars_)
             if n == 0:
